@@ -42,6 +42,8 @@ BEH_FULL = (
 )
 BEH_SMALL = [("nop",), ("emit", 0, 1, False), ("emit", 1, 2, False), ("gen", 1, 0),
              ("genside", 1), ("cancel", 2), ("emit", 1, 1, True), ("crash", True), ("emitrev", 1), ("past2",)]
+BEH_CRASH = [("nop",), ("gen", 1, 0), ("gen", 0, 1), ("genside", 1), ("crash", True), ("crash", False),
+             ("emit", 1, 1, True), ("emit", 0, 1, False), ("cancel", 1)]
 KINDS = ["plain", "daemon", "cancelled"]
 STYLES = ["list", "separate", "reversed", "preconstruct", "preconstruct-hi"]
 # (end_ns or None, attach_control)
@@ -100,6 +102,7 @@ class Scripted(Entity):
     def _gen(self, d, dt, seq, daemon):
         c = self.ctx
         c.procs[seq] = daemon
+        c.proc_due[seq] = self.now.nanoseconds + d
         yield d * 1e-9
         now = self.now.nanoseconds
         c.clock_obs.append(now)
@@ -111,6 +114,7 @@ class Scripted(Entity):
         c = self.ctx
         c.procs[seq] = daemon
         now0 = self.now.nanoseconds
+        c.proc_due[seq] = now0 + d
         yield d * 1e-9, [c.mk(now0, self, ("nop",), by=seq)]
         now = self.now.nanoseconds
         c.clock_obs.append(now)
@@ -128,6 +132,7 @@ class Ctx:
         self.resumes = []
         self.toggles = []
         self.procs = {}
+        self.proc_due = {}  # seq of the starting event -> ns at which its sleeping process is due to resume
         self.pre = []
         self.ents = []
         self.sim_clock = None
@@ -304,8 +309,13 @@ def oracle(c: Ctx, program, style, mode):
                 break
             if not pending:
                 # sleeping non-daemon generator processes started before i and resumed after
-                for (pseq, rnow) in c.resumes:
-                    if not reg[pseq]["daemon"] and pseq in order and order[pseq] < i and rnow >= now:
+                resumed_at = dict(c.resumes)
+                for pseq, due in c.proc_due.items():
+                    if reg[pseq]["daemon"] or pseq not in order or order[pseq] >= i:
+                        continue
+                    # resumed at/after this instant, or never resumed (entity went down: the continuation
+                    # is parked when its turn comes) but still due at/after this instant => was pending
+                    if resumed_at.get(pseq, due) >= now:
                         pending = True
                         break
             if not pending:
@@ -393,6 +403,7 @@ def main(tier, seed, only=None):
         fams.append(("p1-full", 1, BEH_FULL, (0, 1, 2), True, STYLES, MODES))
         fams.append(("p2-full", 2, BEH_FULL, (0, 1, 2), False, STYLES, MODES))
         fams.append(("p3-small", 3, BEH_SMALL, (1, 2), False, ["list", "preconstruct"], [(None, False), (2, False)]))
+        fams.append(("p2-crash-2targets", 2, BEH_CRASH, (0, 1, 2), True, ["list", "reversed"], MODES))
     else:
         fams.append(("p1-full", 1, BEH_FULL, (0, 1, 2, 3), True, STYLES, MODES))
         fams.append(("p2-full-2targets", 2, BEH_FULL, (0, 1, 2), True, STYLES, MODES))
